@@ -56,7 +56,7 @@ def main(tier, seed, replay):
         sample = rnd.sample(small, min(len(small), 80 if tier == "quick" else 400))
         ncross = D.vm_crosscheck(res, PROP, sample, "From SL Require Import Codec.Run.")
     if not ok and not res.violations:
-        res.violation(getattr(res, "coq_failure", L.write_replay(PROP, "coq_failure.txt", "proof stage failed")),
+        res.violation(getattr(res, "coq_failure", None) or L.write_replay(PROP, "coq_failure.txt", "proof stage failed"),
                       "theorems of %s no longer check; differential run and monitors found no failing input" % PROP_V, no_input=True)
     elif not ok:
         print("# note: the Coq proof stage also failed: %s" % getattr(res, "coq_failure", "?"))
